@@ -12,6 +12,7 @@ import (
 
 	"github.com/freeconf/yang/node"
 	"github.com/freeconf/yang/nodeutil"
+	"github.com/freeconf/yang/parser"
 )
 
 func init() { Registry["C18"] = C18 }
@@ -85,7 +86,65 @@ func safeDo(f func() error) (err error) {
 	return f()
 }
 
+// an application struct whose container and one leaf are reached through accessor methods only
+type c18Child struct{ X string }
+type c18Parent struct {
+	Name string
+	c    *c18Child
+	tag  string
+}
+
+func (p *c18Parent) GetC() *c18Child  { return p.c }
+func (p *c18Parent) SetC(c *c18Child) { p.c = c }
+func (p *c18Parent) GetTag() string   { return p.tag }
+func (p *c18Parent) SetTag(s string)  { p.tag = s }
+
+type c18Root struct{ Top *c18Parent }
+
+// deleting a node removes that node: what is next to it stays, also when the node is served by Get/Set methods
+func c18accessors(c *core.Ctx) {
+	y := `module acc { namespace "urn:acc"; prefix acc; revision 2020-01-01;
+  container top { leaf name { type string; } leaf tag { type string; } container c { leaf x { type string; } } } }`
+	m, err := parser.LoadModuleFromString(nil, y)
+	if err != nil {
+		c.Violation(core.Replay{Kind: "harness", Summary: "c18accessors module: " + err.Error(), NoInputFound: true})
+		return
+	}
+	for _, tc := range []struct{ del, want string }{
+		{"top/c", `{"top":{"name":"n","tag":"t"}}`},
+		{"top/tag", `{"top":{"name":"n","tag":"","c":{"x":"v"}}}`},
+		{"top/name", `{"top":{"name":"","tag":"t","c":{"x":"v"}}}`},
+		{"top/c/x", `{"top":{"name":"n","tag":"t","c":{"x":""}}}`},
+	} {
+		root := &c18Root{Top: &c18Parent{Name: "n", tag: "t", c: &c18Child{X: "v"}}}
+		var got string
+		e := safeDo(func() error {
+			b := node.NewBrowser(m, &nodeutil.Node{Object: root})
+			sel, err := b.Root().Find(tc.del)
+			if err != nil || sel == nil {
+				return fmt.Errorf("find: %v", err)
+			}
+			if err := sel.Delete(); err != nil {
+				return err
+			}
+			got, err = nodeutil.WriteJSON(b.Root())
+			return err
+		})
+		if e != nil {
+			got = "error " + short(e.Error())
+		}
+		c.Evaluations++
+		c.Count("accessor_struct", "delete "+tc.del)
+		c.Distinct("acc " + tc.del)
+		if got != tc.want {
+			c.Violation(core.Replay{Kind: "property-failure", Class: "accessor-delete", Summary: fmt.Sprintf("struct served through Get/Set methods: Delete of %s leaves %s, want %s", tc.del, got, tc.want),
+				Input: map[string]interface{}{"yang": y, "delete": tc.del, "before": `{"top":{"name":"n","tag":"t","c":{"x":"v"}}}`}, Impl: got, Spec: tc.want})
+		}
+	}
+}
+
 func C18(c *core.Ctx) {
+	c18accessors(c)
 	c.Rule = "operation sequences of length 1–12 (upsert / insert / update documents, delete of a container, of a list entry (present or absent key), of a whole list, replace of a container or list) at a random location (root, container, list entry) of generated trees, on the reference store and on reflection over maps; after every operation the status, the complete store content re-read independently of the library, Find of the deleted key and of every remaining entry are compared with the Lean model. non-trivial = sequence with ≥1 delete/replace that hits existing data; distinct by (schema, initial tree, sequence, target)"
 	c.Assumptions = append(c.Assumptions,
 		"replace of a single list entry (ReplaceFrom on an entry) is exercised only through delete + upsert sequences, the model has no separate operation for it",
